@@ -115,6 +115,7 @@ type ProcResult struct {
 	StdinErrorReturned bool `json:"stdin_error_returned,omitempty"`
 	Panic    string    `json:"panic,omitempty"`
 	Stamps   []OutStamp `json:"-"`
+	StdoutFaults int    `json:"stdout_faults,omitempty"`
 	EndStep  int64     `json:"end_step"`
 	EndTime  time.Duration `json:"end_time_ns"`
 	Uneven   string    `json:"uneven,omitempty"`
@@ -140,6 +141,10 @@ type Kernel struct {
 	inbox chan arrival
 	free  atomic.Bool
 	step  atomic.Int64
+	// progress counts turns of the controller loop; Execute watches it in REAL
+	// time to detect blocks that synctest does not consider durable (a
+	// sync.Mutex never released, a spin loop, a blocking system call)
+	progress atomic.Int64
 	rowStride uint64
 	rowCtr    atomic.Uint64
 
@@ -667,6 +672,7 @@ func (k *Kernel) Run() {
 	}
 	for {
 		synctest.Wait()
+		k.progress.Add(1)
 		k.drain()
 		if k.allDone() && len(k.parked) == 0 {
 			break
@@ -724,6 +730,7 @@ func (k *Kernel) Run() {
 	k.free.Store(true)
 	for i := 0; i < 100; i++ {
 		synctest.Wait()
+		k.progress.Add(1)
 		k.drain()
 		if len(k.parked) == 0 {
 			break
@@ -790,9 +797,22 @@ type stampWriter struct {
 	k   *Kernel
 	buf bytes.Buffer
 	st  []OutStamp
+	// output fault: the failAt-th write that is not a harness marker fails with
+	// ENOSPC (and every later one too when failAll is set: a full device)
+	failAt  int
+	failAll bool
+	n       int
+	failed  int
 }
 
 func (w *stampWriter) Write(b []byte) (int, error) {
+	if w.failAt > 0 && !bytes.HasPrefix(b, []byte("@")) {
+		w.n++
+		if w.n == w.failAt || (w.failAll && w.n > w.failAt) {
+			w.failed++
+			return 0, &os.PathError{Op: "write", Path: "/dev/stdout", Err: syscall.ENOSPC}
+		}
+	}
 	w.buf.Write(b)
 	w.st = append(w.st, OutStamp{Step: w.k.step.Load(), Time: time.Since(w.k.start), Text: string(b)})
 	return len(b), nil
